@@ -27,6 +27,10 @@ pub static DEF: PropDef = PropDef {
 };
 
 fn run(c: &mut Case) {
+    if c.tier == crate::runner::Tier::Thorough && c.idx < super::giant::GIANT_CASES {
+        super::giant::run_giant(c, "C01", c.idx);
+        return;
+    }
     let mut o = DocOpts::MIXED;
     o.full_specs = c.rng.chance(1, 4);
     let doc = gen_doc(&mut c.rng, c.tier, &o);
